@@ -137,13 +137,28 @@ static void lk_step(int op, volatile void* p, int ok, uintptr_t oldv) {
   const char* kind = (op == VOP_LOAD) ? "L" : (op == VOP_STORE) ? "W" : (op == VOP_CASW || op == VOP_CASS) ? (ok == 1 ? "C" : "F") : "?";
   int k = atoi(cls + 3);
   if (cls[0] == 't') { printf("S %d %s tf %d ", cur, kind, k); lk_tf(pages[k], oldv); printf(" -> "); lk_tf(pages[k], newv); printf("\n"); }
-  else if (cls[0] == 'x') { printf("S %d %s heap %d ", cur, kind, k); lk_heapval(oldv); printf(" -> "); lk_heapval(newv); printf("\n"); }
+  else if (cls[0] == 'x') {
+    printf("S %d %s heap %d ", cur, kind, k); lk_heapval(oldv); printf(" -> "); lk_heapval(newv); printf("\n");
+    if (op == VOP_STORE && newv == 0) {
+      // _mi_page_free: the page is gone NOW.  Its descriptor (and, when the whole segment goes back to the arena, its address)
+      // can be re-used by any thread before this thread returns from its call: retire the id at once; the re-used descriptor
+      // is registered as a new page at its owner's next snapshot
+      printf("G %d dead\n", k); pages[k] = NULL; pg_owner[k] = -1; pg_sig[k] = 0;
+    }
+  }
   else { printf("S %d %s del %d ", cur, kind, k); lk_del(oldv); printf(" -> "); lk_del(newv); printf("\n"); }
 }
 // declare the heaps of the calling thread that the log has not mentioned yet (before their first use)
 static void lk_declare(void) {
   mi_heap_t* dh = mi_prim_get_default_heap();
-  if (dh == NULL || dh == (mi_heap_t*)&_mi_heap_empty) return;
+  if (dh == NULL || dh == (mi_heap_t*)&_mi_heap_empty) {
+    // the thread's first allocator call would create its backing heap INSIDE the call, and a step of that call can already
+    // name the heap (the xheap store of its first page) before the H line could be printed: create the heap now, outside
+    // the scheduler, so that it is declared before its first use
+    int so = sched_on; sched_on = 0; mi_thread_init(); sched_on = so;
+    dh = mi_prim_get_default_heap();
+    if (dh == NULL || dh == (mi_heap_t*)&_mi_heap_empty) return;
+  }
   for (mi_heap_t* h = dh->tld->heaps; h != NULL; h = h->next) {
     int hid = heap_id(h);
     if (hid >= 0 && !heap_printed[hid]) { heap_printed[hid] = 1; printf("H %d %d %d\n", hid, cur, h == dh->tld->heap_backing ? 1 : 0); }
